@@ -73,7 +73,7 @@ Merge == \E c \in Candidates(Policy, segs) : segs' = AfterMerge(segs, c)
 
 Next == AddSegment \/ DeleteDocs \/ Merge
 Spec == Init /\ [][Next]_vars
-Bound == SumDocs(segs) <= 40
+Bound == SumDocs(segs) <= 24
 
 \* ------------------------------------------------------------------ properties
 Cands == Candidates(Policy, segs)
